@@ -6,7 +6,7 @@ import sys
 import time
 import traceback
 
-from .srcmodel import AnalysisError, Repo
+from .srcmodel import AnalysisError, Repo, U
 from .report import Ctx, finish, write_evidence, VERIF_ROOT
 
 CLAIMED = ['C11', 'C01', 'C02', 'C04', 'C05', 'C06', 'C07', 'C08', 'C09', 'C10', 'C12', 'C13',
@@ -46,6 +46,23 @@ def analyse(prop, repo, tier='quick'):
             ctx.ob('memo-key', nf, node, False,
                    'the memo table `%s` is keyed by `%s`, which does not determine the memoised value: the value also depends on %s, so the '
                    'result computed for one iteration is silently reused for another' % (table, ktext, missing))
+    # decorators of the functions this property looked at: a verdict on a body only carries over when the decorator is neutral
+    from .engines import decorators
+    for key in sorted(ctx.functions):
+        rel, qual = key.split(':', 1)
+        if not repo.exists(rel) or not repo.has_func(rel, qual):
+            continue
+        fi0 = repo.func(rel, qual)
+        try:
+            verdicts = decorators.judge(repo, fi0)
+        except AnalysisError as e:
+            if err is None:
+                err = e
+            continue
+        for ok, node, msg in verdicts:
+            if not ok:
+                n_memo += 1
+            ctx.ob('memo-key', fi0, node, ok, msg, construct='decorator of %s: %s' % (qual, U(node)[:60]))
     if err is not None and not n_memo:
         raise err
     if err is not None:
